@@ -65,7 +65,6 @@ Section STAGES.
     destruct e; [reflexivity|].
     destruct (pd_required p && negb found); [reflexivity|].
     destruct (is_nil_val v); [destruct (negb (pd_allow_empty p) && found); reflexivity|].
-    destruct (int32_conflict (pd_schema p) v); [reflexivity|].
     pose proof (visit_np rc rm fo (mkSt false multi false false false false (has_int v)) (pd_schema p) (sort_obj (json_of v))) as Hv.
     destruct (visit rc rm fo _ (pd_schema p) (sort_obj (json_of v))); try reflexivity. discriminate Hv.
   Qed.
